@@ -1,6 +1,7 @@
 """C04 — set() reports one coherent outcome: return, value, u and signal agree."""
 import copy
 import datetime
+import re
 import decimal
 import unicodedata
 
@@ -194,14 +195,19 @@ def diagnose(e):
     passed through was holding an int beyond CPython's int->str limit (its `obj`: the input, or the
     adapted value)."""
     from flatland.schema.scalars import Scalar
-    culprit = None
+    culprit, site = None, None
     tb = e.__traceback__
     while tb is not None:
         fr = tb.tb_frame
-        if fr.f_code.co_name == "set" and isinstance(fr.f_locals.get("self"), Scalar) and "obj" in fr.f_locals:
+        me = fr.f_locals.get("self")
+        if fr.f_code.co_name == "set" and isinstance(me, Scalar) and "obj" in fr.f_locals:
             culprit = fr.f_locals["obj"]
+        if "flatland" in fr.f_code.co_filename and me is not None:
+            # the innermost library frame: which method of which base type let the exception out
+            owner = next((c.__name__ for c in type(me).__mro__ if fr.f_code.co_name in c.__dict__), type(me).__name__)
+            site = "%s.%s" % (owner, fr.f_code.co_name)
         tb = tb.tb_next
-    return {"message": str(e)[:60], "culprit_huge": is_huge(culprit)}
+    return {"message": str(e)[:60], "culprit_huge": is_huge(culprit), "site": site}
 
 
 def observe_set(el, x):
@@ -304,6 +310,149 @@ def inexact_temporal(kind, x):
         return True
     return False
 
+
+
+
+# ---------------------------------------------------------------- reference outcome from the kind description
+# (documentation of each type + the Python standard library; none of flatland's adapt/serialize)
+
+class _Unadaptable(Exception):
+    pass
+
+
+_TEMPORAL = {
+    "date": (datetime.date, re.compile(r"(\d{4})-(\d{2})-(\d{2})\n?\Z"), "%04i-%02i-%02i",
+             lambda v: (v.year, v.month, v.day)),
+    "time": (datetime.time, re.compile(r"(\d{2}):(\d{2}):(\d{2})\n?\Z"), "%02i:%02i:%02i",
+             lambda v: (v.hour, v.minute, v.second)),
+    "datetime": (datetime.datetime, re.compile(r"(\d{4})-(\d{2})-(\d{2}) (\d{2}):(\d{2}):(\d{2})\n?\Z"),
+                 "%04i-%02i-%02i %02i:%02i:%02i", lambda v: (v.year, v.month, v.day, v.hour, v.minute, v.second)),
+}
+
+
+def ref_adapt(kind, x):
+    k = kind["k"]
+    if k == "boolean_default":
+        return ref_adapt(BOOL_DEFAULT, x)
+    if k == "constrained":
+        v = ref_adapt(kind["child"], x)
+        valid = kind["valid"]
+        ok = {"never": False, "always": True}.get(valid["v"])
+        if ok is None:
+            ok = v in tuple(S.nat_to_py(w) for w in valid["vals"])
+        if not ok:
+            raise _Unadaptable()
+        return v
+    if x is None:
+        return None
+    if k == "string":
+        t = x if isinstance(x, str) else str(x)
+        return t.strip() if kind["strip"] else t
+    if k in ("integer", "float", "decimal"):
+        ty = {"integer": int, "float": float, "decimal": decimal.Decimal}[k]
+        if isinstance(x, str):
+            x = x.strip()
+        try:
+            v = ty(x)
+        except (ValueError, TypeError, ArithmeticError):
+            raise _Unadaptable()
+        if not kind["signed"]:
+            try:
+                neg = v < ty()
+            except ArithmeticError:
+                raise _Unadaptable()
+            if neg:
+                raise _Unadaptable()
+        return v
+    if k == "boolean":
+        if not isinstance(x, str):
+            return bool(x)
+        if x == kind["true"] or x in kind["tsyn"]:
+            return True
+        if x == kind["false"] or x in kind["fsyn"]:
+            return False
+        raise _Unadaptable()
+    ty, rx, _, _ = _TEMPORAL[k]
+    if isinstance(x, ty):
+        return x
+    if isinstance(x, str):
+        t = x.strip() if kind["strip"] else x
+        m = rx.match(t)
+        if not m:
+            raise _Unadaptable()
+        try:
+            return ty(*[int(g) for g in m.groups()])
+        except (TypeError, ValueError):
+            raise _Unadaptable()
+    raise _Unadaptable()
+
+
+def ref_serialize(kind, v):
+    k = kind["k"]
+    if k == "boolean_default":
+        return ref_serialize(BOOL_DEFAULT, v)
+    if k == "constrained":
+        return ref_serialize(kind["child"], v)
+    if k == "string":
+        t = v if isinstance(v, str) else str(v)
+        return t.strip() if kind["strip"] else t
+    if k in ("integer", "float", "decimal"):
+        ty = {"integer": int, "float": float, "decimal": decimal.Decimal}[k]
+        fmt = ("%%0%di" % kind["width"] if kind.get("width") else "%i") if k == "integer" else "%f"
+        if type(v) is ty:
+            try:
+                return fmt % v
+            except (ValueError, ArithmeticError):
+                pass            # a value the format cannot represent (NaN, sNaN, infinity): str()
+        return str(v)
+    if k == "boolean":
+        return kind["true"] if v else kind["false"]
+    ty, _, fmt, parts = _TEMPORAL[k]
+    return fmt % parts(v) if isinstance(v, ty) else str(v)
+
+
+def ref_set(kind, x):
+    """(flag, value, u) documented for set(x).  May raise ValueError for ints beyond CPython's
+    int->str limit (the caller skips the comparison then)."""
+    try:
+        v = ref_adapt(kind, x)
+    except _Unadaptable:
+        return False, None, ("" if x is None else x if isinstance(x, str) else str(x))
+    return True, v, ("" if v is None else ref_serialize(kind, v))
+
+
+def temporal_text(v):
+    if isinstance(v, datetime.datetime):
+        return "%04d-%02d-%02d %02d:%02d:%02d" % (v.year, v.month, v.day, v.hour, v.minute, v.second)
+    if isinstance(v, datetime.date):
+        return "%04d-%02d-%02d" % (v.year, v.month, v.day)
+    return "%02d:%02d:%02d" % (v.hour, v.minute, v.second)
+
+
+def opaque_stable_on(entries):
+    """The hypothesis OpaqueStable of reset_text_all_partial for the environment of this case (the
+    table of recorded float()/Decimal() results), computed on the Python side: for every kind of
+    conversion recorded, the empty text is recorded and does not convert, and the text of every
+    recorded result is recorded and converts to nothing or to a value with the same text."""
+    def text(t):
+        return t["fmt"] if t["fmt"] is not None else t["str"]
+
+    def find(dec, key):
+        for e in entries:
+            if e["dec"] == dec and e["key"] == key:
+                return e
+        return None
+    for dec in {e["dec"] for e in entries}:
+        e0 = find(dec, S.py_to_nat(""))
+        if e0 is None or e0["tok"] is not None:
+            return False
+    for e in entries:
+        if e["tok"] is None:
+            continue
+        e2 = find(e["dec"], S.py_to_nat(text(e["tok"]).strip()))
+        if e2 is None or (e2["tok"] is not None and text(e2["tok"]) != text(e["tok"])):
+            return False
+    return True
 
 
 # ---------------------------------------------------------------- containers (signals clause)
@@ -537,6 +686,53 @@ def expects_keyerror(sch, inp):
     return any(isinstance(k, str) and k in fields and expects_keyerror(fields[k], v) for k, v in pairs)
 
 
+def _iter_items(inp):
+    if inp["i"] == "list":
+        return inp["v"]
+    if inp["i"] == "dict":
+        return [{"i": "leaf", "v": k} for k, _ in inp["v"]]
+    v = S.nat_to_py(inp["v"])
+    if isinstance(v, str):
+        return [leaf(c) for c in v]
+    return None
+
+
+def expected_calls(sch, inp, path, out):
+    """How many times set() is called on each element below a List/Array/Dict for this input: once per
+    item of a sequence, once per pair that names a field.  Returns False when that cannot be told
+    from the input (a container member named twice is rebuilt, its first members leave the tree).
+    Members of JoinedString / DateYYYYMMDD are judged by the caller (pruning / the None branch)."""
+    out[tuple(path)] = out.get(tuple(path), 0) + 1
+    t = sch["s"]
+    if t == "seq":
+        items = _iter_items(inp)
+        if items is None:
+            return True
+        return all(expected_calls(sch["member"], x, path + [i], out) for i, x in enumerate(items))
+    if t == "dict":
+        pairs = _pairs_of(inp)
+        if pairs is None:
+            return True
+        if pairs == "unmodelled":
+            return False
+        names = [n for n, _ in sch["fields"]]
+        fields = dict(sch["fields"])
+        seen = set()
+        for k, v in pairs:
+            try:
+                hash(k)
+            except TypeError:
+                return False
+            if isinstance(k, str) and k in fields:
+                if k in seen and fields[k]["s"] not in ("scalar", "date"):
+                    return False
+                seen.add(k)
+                if not expected_calls(fields[k], v, path + [names.index(k)], out):
+                    return False
+        return True
+    return True
+
+
 def tree_case(sch, x, pre=None):
     return {"mode": "tree", "schema": sch, "x": x, "pre": pre, "conv": tree_conv(sch, [x, pre])}
 
@@ -578,7 +774,8 @@ def tree_obs(case):
         return {"exc": exc, "flag": None, "sigs": None, "tree": None}
     paths = {}
     index_tree(el, sch, [], paths)
-    sigs = [[paths.get(id(sender), ["orphan"]), adapted, snap] for sender, adapted, snap in events]
+    # a sender that is not part of the final tree (a JoinedString piece that was pruned) has no path
+    sigs = [[paths.get(id(sender)), adapted, snap] for sender, adapted, snap in events]
     return {"exc": None, "flag": flag, "sigs": sigs, "tree": tree_canon(el, sch)}
 
 
@@ -682,6 +879,7 @@ class C04(Property):
         "Flatland.C04.Proofs.norm_idem",
         "Flatland.C04.Proofs.reset_text_all_partial",
         "Flatland.C04.Proofs.norm_idem_all",
+        "Flatland.C04.Proofs.opaqueStableOn_sound",
         "Flatland.C04.Proofs.reset_value_partial",
         "Flatland.C04.Proofs.C04_reset_u_fails",
         "Flatland.C04.Proofs.C04_reset_value_fails",
@@ -702,8 +900,10 @@ class C04(Property):
                   "reset_text_partial / reset_value_partial / norm_idem for String, Integer/Long (any width), Boolean, Date, Time, DateTime and "
                   "Enum/Constrained over them (hypotheses Coherent, CoherentNone, WidthOK, ExactInput, value != None; refuted in full by "
                   "C04_reset_u_fails = KF-C04-c, C04_reset_value_fails = KF-C04-b, C04_reset_none_fails = KF-C04-d). Float/Decimal: 'never "
-                  "raises' is by correspondence; 'u stable under re-set' is reset_text_all_partial under OpaqueStable, evaluated by the model on "
-                  "the recorded float()/Decimal() results of every case")
+                  "raises' is by correspondence; 'u stable under re-set' is reset_text_all_partial under OpaqueStable for the environment of the "
+                  "case (the table of recorded float()/Decimal() results, closed under 'text of a result'): opaqueStableOn decides it on the "
+                  "table (opaqueStableOn_sound), and both the model and the harness compute it for every case and are compared. CoherentNone "
+                  "is required only when the value is None. The evidence tags hyp-* / hyps-reset_* count the cases inside each hypothesis")
     technique = "Lean 4 theorems about a hand-written model + regenerated Unicode/limit tables + differential correspondence + Python oracle"
     trusted_base = [
         "CPython str.strip, int(str), '%i'/'%0Ni', str(obj), re (three Temporal regexes), datetime.date/time validity are re-implemented "
@@ -722,18 +922,19 @@ class C04(Property):
         "(recorded as KF-C04-d), the theorem reset_value_partial is for values other than None",
         "Enum/Constrained valid_values contain None/str/int/bool/date/time natives (Python == on them)",
     ]
-    rule = ("70% scalar cases: one of 47 kind configurations (String strip on/off; Integer/Long signed/unsigned, custom %04i/%02i widths; "
+    rule = ("70% scalar cases: one of {NK} kind configurations (String strip on/off; Integer/Long signed/unsigned, custom %04i/%02i widths; "
             "Float/Decimal signed/unsigned; Boolean default and 6 custom true/false/synonym tables incl. incoherent ones; Date/Time/DateTime "
             "strip on/off; Enum/Constrained over String/Integer/Boolean/Date/Time/DateTime/Float/Decimal children, nested Enum, never/always/"
             "membership predicates) x an input drawn 60% from a kind-appropriate mostly-valid pool (padded, transliterated to random Unicode Nd "
-            "decades, '+'/underscore forms, mutated date/time texts) and 40% from the menagerie (None, ~130 texts incl. empty/whitespace/"
+            "decades, '+'/underscore forms, mutated date/time texts) and 40% from the menagerie (None, {NT} texts incl. empty/whitespace/"
             "exponent/NaN/inf/underscore/full-width/4300- and 4301-digit strings, out-of-range dates, ints up to 10**5000, bools, 17 floats, 15 "
             "Decimals incl. sNaN and 1E+5000-class values, 12 native date/time/datetime values, objects with only str()/bool()); 30% of scalar "
             "cases first set() another value on the same element. 30% container cases: random schema of depth <= 3 over List/Array, Dict "
             "(subset/duck policy), DateYYYYMMDD, JoinedString (4 separators, prune on/off) and 8 scalar kinds, type-directed mostly-valid "
             "input plus 15% hostile shapes (non-iterables, strings, 2-character strings as pairs, pair lists with duplicate and unknown keys), "
             "30% with a preliminary set(). Every case: set(), observe return/value/u/signal log, and on success re-set the resulting .u on a "
-            "fresh element. non-trivial = completed set() of a non-None input (scalar) / at least one child signal (container)")
+            "fresh element. non-trivial = completed set() of a non-None input (scalar) / at least one child signal (container)"
+            ).replace("{NK}", str(len(KINDS))).replace("{NT}", str(len(S.TEXTS)))
     quick_n = 40000
     thorough_n = 400000
 
@@ -782,6 +983,14 @@ class C04(Property):
             tree_case({"s": "joined", "sep": ",", "prune": True, "member": K_string(True)}, leaf(None), leaf("a,b")),
             tree_case({"s": "joined", "sep": ",", "prune": True, "member": K_string(True)}, leaf(7), leaf("a,b")),
             tree_case({"s": "joined", "sep": ",", "prune": False, "member": K_int(True)}, leaf(S.Other("thing", True))),
+            # fixed 2a6b55c: the member adapts the piece first and is pruned on its text: 0 is kept, a blank-only piece of
+            # a stripping member is dropped after having signalled (from outside the tree), its flag does not count
+            tree_case({"s": "joined", "sep": ",", "prune": True, "member": K_int(True)}, {"i": "list", "v": [leaf(0), leaf(1)]}),
+            tree_case({"s": "joined", "sep": ",", "prune": True, "member": K_string(True)}, {"i": "list", "v": [leaf("a"), leaf(" "), leaf("b")]}),
+            tree_case({"s": "joined", "sep": ",", "prune": True, "member": K_int(True)}, leaf("1, ,x")),
+            # fa34a5f: Number.serialize lets format errors out for finite values; NaN/sNaN/inf still fall back to str()
+            scalar_case({"k": "decimal", "signed": True}, decimal.Decimal("Infinity")),
+            scalar_case(K_int(True), float("inf")),
             tree_case({"s": "dict", "policy": "subset", "fields": [["j", {"s": "joined", "sep": ",", "prune": True, "member": K_string(True)}],
                                                                   ["a", str_f]]},
                       {"i": "dict", "v": [[S.py_to_nat("j"), leaf(None)], [S.py_to_nat("a"), leaf("x")]]}),
@@ -852,9 +1061,9 @@ class C04(Property):
         if first["exc"] is None and first["flag"]:
             el2 = cls()
             reset, _ = scalar_obs(el2, el.u)
-        # `opaque_stable`: the hypothesis OpaqueStable of reset_text_all_partial, evaluated by the model on
-        # the float()/Decimal() results recorded for this case; it has to hold
-        return {"set": first, "reset": reset, "opaque_stable": True}
+        # `opaque_stable`: the hypothesis OpaqueStable of reset_text_all_partial for the environment of this
+        # case (the recorded float()/Decimal() results), computed independently on both sides
+        return {"set": first, "reset": reset, "opaque_stable": opaque_stable_on(case["conv"])}
 
     def compare(self, impl_obs, model_obs):
         # private keys inside nested observations are not compared
@@ -886,27 +1095,25 @@ class C04(Property):
             return fails
         if el.raw is not x:
             fails.append({"clause": "raw-is-input", "expected": _show(x), "observed": _show(el.raw)})
-        # returned flag <=> the input was adapted
-        probe = cls()
+        # flag, value and text against the documented outcome for this kind (ref_set: kind description +
+        # standard library, not the library's own adapt/serialize)
         try:
-            adapted_value = probe.adapt(x)
-            adapted = True
-        except AdaptationError:
-            adapted, adapted_value = False, None
-        if flag is not adapted:
-            fails.append({"clause": "flag-iff-adapted", "expected": adapted, "observed": flag})
-        if flag is True:
-            if not _same(el.value, adapted_value):
-                fails.append({"clause": "value-is-adapted", "expected": _show(adapted_value), "observed": _show(el.value)})
-            want_u = "" if el.value is None else probe.serialize(el.value)
-            if el.u != want_u or not isinstance(el.u, str):
-                fails.append({"clause": "success-u-is-text-of-value", "expected": want_u, "observed": el.u})
-        else:
-            want_u = "" if x is None else (x if isinstance(x, str) else str(x))
-            if el.value is not None:
-                fails.append({"clause": "failure-value-none", "expected": None, "observed": _show(el.value)})
-            if el.u != want_u:
-                fails.append({"clause": "failure-u-is-input-text", "expected": want_u, "observed": el.u})
+            want_flag, want_value, want_u = ref_set(kind, x)
+        except ValueError:
+            want_flag = None              # an int beyond the int->str limit: set() would have raised
+        if want_flag is not None:
+            if flag is not want_flag:
+                fails.append({"clause": "flag-iff-adapted", "expected": want_flag, "observed": flag})
+            elif flag is True:
+                if not _same(el.value, want_value):
+                    fails.append({"clause": "value-is-adapted", "expected": _show(want_value), "observed": _show(el.value)})
+                if el.u != want_u or not isinstance(el.u, str):
+                    fails.append({"clause": "success-u-is-text-of-value", "expected": want_u, "observed": el.u})
+            else:
+                if el.value is not None:
+                    fails.append({"clause": "failure-value-none", "expected": None, "observed": _show(el.value)})
+                if el.u != want_u:
+                    fails.append({"clause": "failure-u-is-input-text", "expected": want_u, "observed": el.u})
         # exactly one signal for this element, last, adapted == flag, sent after value/u are final
         own = [e for e in events if e[0] is el]
         if len(own) != 1 or events[-1][0] is not el:
@@ -959,20 +1166,70 @@ class C04(Property):
             fails.append({"clause": "signal-after-final", "expected": final, "observed": snap})
         if not isinstance(flag, bool):
             fails.append({"clause": "flag-is-bool", "expected": "bool", "observed": repr(flag)})
-        direct = [e[1] for e in events[:-1] if len(paths.get(id(e[0]), ["orphan", "x"])) == 1]
+        # ... and the same for every element of the tree: one signal per set() call made on it, its last
+        # signal after those of the elements below it, carrying its final state
+        fails.extend(self._each_element(el, sch, case["x"], paths, events))
+        direct = [e[1] for e in events[:-1] if len(paths.get(id(e[0])) or ["pruned", "piece"]) == 1]
         if sch["s"] in ("seq", "dict", "joined") and direct and flag is not all(direct):
             fails.append({"clause": "flag-is-conjunction-of-children", "expected": all(direct), "observed": flag})
         return fails
 
+    def _each_element(self, root, sch, inp, paths, events):
+        fails = []
+        counts = {}
+        countable = expected_calls(sch, inp, [], counts)
+        by_path = {}
+
+        def walk(e, s_, path):
+            by_path[tuple(path)] = (e, s_)
+            for i, (c, cs) in enumerate(children_of(e, s_)):
+                walk(c, cs, path + [i])
+        walk(root, sch, [])
+        last_at = {}
+        n_sig = {}
+        for i, (sender, adapted, snap) in enumerate(events):
+            p = paths.get(id(sender))
+            if p is not None:
+                last_at[tuple(p)] = i
+                n_sig[tuple(p)] = n_sig.get(tuple(p), 0) + 1
+        for path, (e, s_) in by_path.items():
+            got = n_sig.get(path, 0)
+            parent = by_path.get(path[:-1]) if path else None
+            parent_set = parent is not None and n_sig.get(path[:-1], 0) > 0
+            if parent is not None and parent[1]["s"] == "joined":
+                want = 1 if parent_set else 0  # a kept piece was set exactly once (members of an untouched element: not at all)
+            elif parent is not None and parent[1]["s"] == "date":
+                sibs = {n_sig.get(path[:-1] + (j,), 0) for j in range(3)}
+                # per set() of the compound: all three members once, or none of them (the None branch)
+                n_parent = n_sig.get(path[:-1], 0)
+                want = (got if (len(sibs) == 1 and got <= n_parent) else n_parent) if parent_set else 0
+            elif countable:
+                want = counts.get(path, 0)
+            else:
+                continue
+            if got != want:
+                fails.append({"clause": "signal-exactly-once-each", "path": list(path), "expected": want, "observed": got})
+                continue
+            if got:
+                below = [last_at[q] for q in last_at if len(q) > len(path) and q[: len(path)] == path]
+                if below and max(below) > last_at[path]:
+                    fails.append({"clause": "signal-after-children", "path": list(path), "expected": "last", "observed": last_at[path]})
+                snap = events[last_at[path]][2]
+                if snap != canon_any(e):
+                    fails.append({"clause": "signal-after-final", "path": list(path), "expected": canon_any(e), "observed": snap})
+        return fails
+
     def classify(self, case, failure):
-        """A failure is filed under a recorded finding only when the observation is what that finding
-        predicts for this input."""
+        """A failure is filed under a recorded finding only when BOTH the first outcome and the
+        observation that failed are what that finding predicts for this kind and input."""
         clause = failure.get("clause")
         if clause == "set-raises":
-            # KF-C04-a: CPython's int->str limit, raised while the innermost Scalar.set() was holding
-            # the over-long int (as its input or as the value it adapted)
+            # KF-C04-a: CPython's int->str limit, let out by one of the three places that print a value
+            # (str(obj) in the failure branch of Scalar.set, str(value) in String.adapt, format % value /
+            # str(value) in Number.serialize) while the innermost Scalar.set() holds the over-long int
             if (failure.get("observed") == "ValueError" and "Exceeds the limit" in failure.get("message", "")
-                    and failure.get("culprit_huge")):
+                    and failure.get("culprit_huge")
+                    and failure.get("site") in ("Scalar.set", "String.adapt", "Number.serialize")):
                 return "KF-C04-a"
             return None
         if case["mode"] == "tree":
@@ -981,18 +1238,27 @@ class C04(Property):
         x = S.nat_to_py(case["x"])
         if clause == "reset-value":
             want = truncated_temporal(kind, x)
-            if want is not None and failure.get("observed") == _show(want):
+            if (want is not None and failure.get("observed") == _show(want)
+                    and failure.get("expected") == _show(x)                  # the native input was kept as the value
+                    and failure.get("first_u") == temporal_text(want)):      # and its text is the truncated form
                 return "KF-C04-b"
         if clause in ("reset-u", "reset-value", "reset-value-none"):
-            # the text of the first outcome, read back by the kind description
             first_u = failure.get("first_u") if clause != "reset-u" else failure.get("expected")
+            first_v = failure.get("first_value") if clause == "reset-u" else failure.get("expected")
+            if S.base_kind(kind)["k"] not in ("string", "boolean", "boolean_default"):
+                return None
+            try:
+                f = ref_set(kind, x)
+            except ValueError:
+                return None
+            if not f[0] or f[2] != first_u or _show(f[1]) != first_v:
+                return None                                              # the first outcome is not the documented one
             sim = sim_set_text(kind, first_u) if isinstance(first_u, str) else None
             if sim is not None and sim[0]:
                 observed = failure.get("observed")
                 predicted = sim[2] if clause == "reset-u" else _show(sim[1])
                 if observed == predicted:
                     if clause == "reset-value-none":
-                        # KF-C04-d: the input was None, whose text '' this kind adapts to a value
                         if x is None and first_u == "":
                             return "KF-C04-d"
                     elif bool_incoherent(kind, x):
@@ -1040,6 +1306,24 @@ class C04(Property):
                 t.append("text-huge")
         if x is not None and x["t"] == "int" and len(x["v"]) > 3000:
             t.append("int-huge")
+        # which hypotheses of the re-set theorems this case satisfies
+        if s["exc"] is None and s["flag"]:
+            xv = S.nat_to_py(x)
+            kind = case["kind"]
+            hyps = {
+                "Modelled": exact_kind(kind),
+                "Coherent": not bool_incoherent(kind),
+                "CoherentNone-or-value": s["value"] is not None or not bool_incoherent(kind, None),
+                "ExactInput": not inexact_temporal(kind, xv),
+                "NoHuge": not has_huge_int(case),
+                "value-not-None": s["value"] is not None,
+            }
+            for name, ok in hyps.items():
+                t.append("hyp-%s=%s" % (name, ok))
+            t.append("hyps-reset_text=%s" % all(hyps[h] for h in ("Modelled", "Coherent", "CoherentNone-or-value", "NoHuge")))
+            t.append("hyps-reset_value=%s" % all(hyps.values()))
+            if not exact_kind(kind):
+                t.append("hyp-OpaqueStable=%s" % obs.get("opaque_stable"))
         return t
 
     def shrink_candidates(self, case):
